@@ -996,10 +996,12 @@ namespace Clipper2Lib {
         // passing right through rect. 'ip' here will be the second
         // intersect pt but we'll also need the first intersect pt (ip2)
         crossing_loc = prev;
-        GetIntersection(rect_as_path_,
-          prev_pt, path[i], crossing_loc, ip2);
-        Add(ip2, true);
-        Add(ip);
+        if (GetIntersection(rect_as_path_,
+          prev_pt, path[i], crossing_loc, ip2))
+        {
+          Add(ip2, true);
+          Add(ip);
+        }
       }
       else // path must be exiting rect
       {
